@@ -301,20 +301,28 @@ func init() {
 				}
 				r.Check(n-nTS == 1 && nTS <= 1, "copied-local/rename-decision-present", rp.Decl.Pos(), "one rename decision for objects, at most one for type switch declarations (%d, %d)", n-nTS, nTS)
 				// the chosen-names predicate scans every chosen name
-				okIn := false
+				// … of every table of chosen names (objects; type switch declarations, kept by position)
+				tables, scanned := map[*types.Var]bool{}, map[*types.Var]bool{}
+				for _, v := range rp.localVarsOfMapToString() {
+					tables[v] = true
+				}
 				rp.inspect(rp.Decl.Body, func(nd ast.Node) bool {
 					rs, ok := nd.(*ast.RangeStmt)
 					if !ok || rs.Value == nil {
 						return true
 					}
-					if v := rp.varOf(rs.X); v != nil {
-						if mt, ok := v.Type().(*types.Map); ok && types.TypeString(mt.Elem(), nil) == "string" && rp.loopOnlyReturnsTrueOnEq(rs) {
-							okIn = true
-						}
+					if v := rp.varOf(rs.X); v != nil && tables[v] && rp.loopOnlyReturnsTrueOnEq(rs) {
+						scanned[v] = true
 					}
 					return true
 				})
-				r.Check(okIn, "copied-local/inNewNames-scans-all", rp.Decl.Pos(), "the chosen-names predicate compares against every chosen name")
+				okIn := len(tables) > 0
+				for v := range tables {
+					if !scanned[v] {
+						okIn = false
+					}
+				}
+				r.Check(okIn, "copied-local/inNewNames-scans-all", rp.Decl.Pos(), "the chosen-names predicate compares against every chosen name of every table (%d tables)", len(tables))
 			}
 		})
 
@@ -687,5 +695,27 @@ func truthMakers(fi *FuncInfo, lit *ast.FuncLit) map[string]bool {
 	}
 	walk(lit.Body.List)
 	delete(out, "other:true")
+	return out
+}
+
+// localVarsOfMapToString: the local variables of type map[K]string (tables of chosen names).
+func (fi *FuncInfo) localVarsOfMapToString() []*types.Var {
+	var out []*types.Var
+	seen := map[*types.Var]bool{}
+	fi.inspect(fi.Decl.Body, func(n ast.Node) bool {
+		id, ok := n.(*ast.Ident)
+		if !ok {
+			return true
+		}
+		v, ok := fi.Info.Defs[id].(*types.Var)
+		if !ok || seen[v] || v.IsField() {
+			return true
+		}
+		if mt, ok := v.Type().(*types.Map); ok && types.TypeString(mt.Elem(), nil) == "string" {
+			seen[v] = true
+			out = append(out, v)
+		}
+		return true
+	})
 	return out
 }
